@@ -50,6 +50,21 @@ package keeper
 //@   ensures mirrors_running: foreign("GetRequestContext", 1, 1) && foreign("GetRequestContext", 1, 0).State == RUNNING ==> mirrors(name, RUNNING, PAUSED)
 //@ end
 
+// The service module reports the outcome of a batch: a failed batch (no output, or reported with an error such as a
+// missed response threshold) appends nothing; otherwise at most the feed bound to that request context gets a value.
+//@ func Keeper.HandlerResponse
+//@   property C17
+//@   requires len(responseOutput) == 0 ==> err != nil
+//@   requires forall n:Str :: has(feeds, n) ==> get(feeds, n).LatestHistory >= 1 && get(feeds, n).LatestHistory <= 100
+//@   let bound = ite(has(byCtx, requestContextID), get(byCtx, requestContextID), "")
+//@   modifies values, bal, supply
+//@   invariant #1 t: rangeindex >= 0 - 1 && values == old(values)
+//@   ensures failed_appends_nothing: len(responseOutput) == 0 || err != nil ==> values == old(values)
+//@   ensures unbound_appends_nothing: !has(feeds, bound) ==> values == old(values)
+//@   ensures only_its_feed: forall n:Str :: forall c:Int :: has(feeds, bound) && n != get(feeds, bound).FeedName
+//@                          ==> has(values, n, c) == old(has(values, n, c)) && get(values, n, c) == old(get(values, n, c))
+//@ end
+
 // History size (C17, count level): CNT(values, feed) is the number of stored values of a feed, defined as the length of
 // the prefix enumeration (A-ITER); removing a present key decreases it by one, adding an absent key increases it by one.
 //@ define CNT(F, n) = uf("value_count", F, n)
@@ -106,4 +121,5 @@ package keeper
 //@   modifies values
 //@   ensures stored:  has(values, feedName, batchCounter) && get(values, feedName, batchCounter) == value
 //@   ensures bounded: CNT(values, feedName) <= latestHistory
+//@   ensures others:  forall n:Str :: forall c:Int :: n != feedName ==> has(values, n, c) == old(has(values, n, c)) && get(values, n, c) == old(get(values, n, c))
 //@ end
